@@ -764,9 +764,9 @@ func (g *caseGen) modelSafe(m []byte) bool {
 
 func generate(r *hxlib.Run, emit func(hxlib.Case)) {
 	regressionCases(r, emit)
-	nSeq := r.Budget(2400, 40000)
-	nFuzz := r.Budget(800, 15000)
-	nConc := r.Budget(700, 12000)
+	nSeq := r.Budget(2400, 24000)
+	nFuzz := r.Budget(800, 8000)
+	nConc := r.Budget(700, 6000)
 	for i := 0; i < nSeq; i++ {
 		if crashes >= 8 {
 			r.Count("generation-stopped-after-8-dead-workers")
